@@ -4,7 +4,9 @@
   on the implementation's own sends and log entries.
 
     case <id> retention= repeat= sr= pos=<p0,p1,…>
-    round <t> <alerts> <skews> <accept bits> <delay matrix> -> begin
+    round <t> <alerts> <skews> <accept bits> <delay matrix> [<lates> [<unsettled bits>]] -> begin
+         unsettled bit 1 = gossip has not settled on that instance: its notify.Peer blocks in WaitReady until the flush
+         context (10 s) is done; that flush must FAIL (the dispatcher then keeps the alerts), send nothing, log nothing
     gc <t> <i> | crash <t> <i> <keep> | redeliver <t> <src> <dst>  -> begin
     ev <wall> sent <i> <f>/<r>
     ev <wall> done <i> <tick> <ok|err> <entry>
@@ -34,6 +36,7 @@ structure St where
   implSends : List (Nat × Nat × Int × List Nat) := [] -- every send the implementation made: inst, integration, wall, firing
   implEntries : List String := []               -- implementation's entries after the previous op
   gcInst : Option (Nat × Int) := none
+  unsettled : List Bool := []                   -- per instance, current round
 
 def insNat (x : Nat) : List Nat → List Nat
   | [] => [x]
@@ -88,10 +91,14 @@ def step (σ : St) (op obs : List String) : St × List Msg :=
     let lv := ((lates.headD "").splitOn ",").filterMap String.toInt?
     let tks := (skv.zip (lv ++ List.replicate skv.length 0)).map fun (a, b) => a - b
     let tspread := (tks.foldl max (tks.headD 0)) - (tks.foldl min (tks.headD 0))
+    let uns : List Bool := (lates.getD 1 "").toList.map (fun ch => ch == '1')
     let healthy : Bool := present && offDiagOk && accs.all id && decide (spread ≤ σ.cfg.repeatI) && decide (tspread ≤ σ.cfg.repeatI) && converged
-    ({ σ with firing := f, resolved := r, acc := accs, healthy, roundSends := 0, roundSends1 := 0, inRound := true, pending := [], gcInst := none },
+                            && !uns.any id
+    ({ σ with firing := f, resolved := r, acc := accs, healthy, roundSends := 0, roundSends1 := 0, inRound := true, pending := [], gcInst := none,
+              unsettled := uns },
       [.tag (if healthy then "round:healthy" else "round:faulty")] ++ (if σ.n > 1 then [.tag "round:multi"] else [])
-        ++ (if lates.any (fun l => (l.splitOn ",").any (fun x => x ≠ "0")) then [.tag "round:late-tick"] else []))
+        ++ (if (lates.take 1).any (fun l => (l.splitOn ",").any (fun x => x ≠ "0")) then [.tag "round:late-tick"] else [])
+        ++ (if uns.any id then [.tag "round:unsettled"] else []))
   | ["gc", t, i], _ => ({ σ with inRound := false, gcInst := some (toNat! i, toInt! t) }, [])
   | ["crash", _t, i, keep], _ =>
     ({ σ with css := (List.range σ.k).map (fun k => AM.Cluster.step (cfgK σ k) (csK σ k) (.crash (toNat! i) (keep = "1"))), inRound := false, gcInst := none },
@@ -105,6 +112,23 @@ def step (σ : St) (op obs : List String) : St × List Msg :=
               roundSends1 := if k = 1 then σ.roundSends1 + 1 else σ.roundSends1 }, [])
   | ["ev", wall, "done", i, tick, res, ent], _ =>
     let i := toNat! i; let wall := toInt! wall; let tick := toInt! tick
+    if σ.inRound ∧ σ.unsettled.getD i false ∧ !(σ.firing.isEmpty ∧ σ.resolved.isEmpty) then   -- (an empty batch passes no stage at all)
+      -- gossip never settled during this flush: ClusterGossipSettleStage returns the context's error, no later stage runs.
+      -- A flush reported as successful discharges the group's obligations (the dispatcher deletes the resolved alerts),
+      -- although no instance was notified by it: the model takes no step, the implementation must report the failure.
+      let mine := σ.pending.filter (·.1 = i)
+      (({ σ with pending := σ.pending.filter (·.1 ≠ i) } : St),
+        expectEq s!"done.res[{i}]" "err" res ++ expectEq s!"done.sent[{i}]" "none" (if mine.isEmpty then "none" else "sent")
+        ++ expectEq s!"done.entry[{i}]" (entryOfInst σ i) ent
+        ++ (if res = "ok" then
+              [Msg.propfail "at_least_once" "unsettled-flush-reported-ok"
+                 s!"instance={i} tick={tick}: gossip had not settled when the flush context ended, nothing was sent, the flush returned no error (firing={showNatList σ.firing} resolved={showNatList σ.resolved})"]
+            else [])
+        ++ (if !mine.isEmpty then
+              [Msg.propfail "healthy_no_duplicate" "sent-before-gossip-settled" s!"instance={i} tick={tick}: notified although gossip had not settled"]
+            else [])
+        ++ [.tag (if σ.resolved.isEmpty then "unsettled:firing-only" else "unsettled:with-resolved")])
+    else
     let init : St × List Msg × Bool := (σ, [], true)
     let (σ', msgs, okAll) := (List.range σ.k).foldl (fun (acc3 : St × List Msg × Bool) k =>
       let (σa, msgs, okAll) := acc3
